@@ -625,6 +625,35 @@ def run(only=None):
             s.merge(acc)
         s.done()
 
+    # 10b. the same obligation when the process runs in another time zone (info-time is a wall-clock reading, not an instant)
+    if want("infotime_other_timezones"):
+        import os as _os2
+        import time as _time2
+
+        dates = all_dates()
+        zones = ["Pacific/Kiritimati", "America/Adak", "Europe/Prague"]
+        times_z = [(0, 0, 0), (2, 30, 0), (23, 59, 59)]
+        s = rep.sub("infotime_other_timezones",
+                    f"all 36525 dates x 3 times of day (incl. 02:30:00, which does not exist on a spring-forward day) with the process time zone "
+                    f"set to each of {zones} (TZ + tzset in the forked worker): written octets and XML view as under UTC")
+        s.declared = len(dates) * len(times_z) * len(zones)
+        tasks = [(z, lo, hi) for z in zones for lo, hi in par.chunks(len(dates), 16)]
+
+        def wz(task):
+            z, lo, hi = task
+            _os2.environ["TZ"] = z
+            _time2.tzset()
+            acc = Acc()
+            for (y, mo, d) in dates[lo:hi]:
+                for (h, mi, sec) in times_z:
+                    check_infotime(acc, y, mo, d, h, mi, sec)
+            # the worker is a forked child that ends here: the zone does not leak into the rest of the run
+            return acc
+
+        for acc in par.pmap(wz, tasks, nw):
+            s.merge(acc)
+        s.done()
+
     if want("call_histories"):
         # histories of two calls: a writer / reader result must not depend on which other number was written or read before
         # (memoised writers keyed without the precision, shared scratch buffers, ...)
